@@ -4,7 +4,7 @@ from __future__ import annotations
 from hypothesis import strategies as st
 
 from .. import gen, model
-from ..core import SKIP, Sub
+from ..core import SKIP, Enum, Sub
 from ..util import carr, arr, compare, flags
 
 ID = "C14"
@@ -44,11 +44,16 @@ def loc_case(draw, tier="quick"):
     lat_s = st.one_of(gen.near([bbox[1], bbox[3]], Q, 8.0), gen.dyadic(3, -la_lim, la_lim))
     lon, lat = [], []
     for i in range(n):
-        how = draw(st.sampled_from(["free", "free", "near", "same"])) if i else "free"
+        how = draw(st.sampled_from(["free", "free", "near", "same", "meridional", "zonal"])) if i else "free"
         if how == "free":
             lo, la = draw(lon_s), draw(lat_s)
         elif how == "same":
             lo, la = lon[-1], lat[-1]
+        elif how == "meridional":
+            # due north / south: metres per degree of latitude vary by 1 % between equator and poles
+            lo, la = lon[-1], lat[-1] + draw(st.integers(-16, 16)) / 8
+        elif how == "zonal":
+            lo, la = lon[-1] + draw(st.integers(-16, 16)) / 8, lat[-1]
         else:
             lo = lon[-1] + draw(st.integers(-64, 64)) / 1024
             la = lat[-1] + draw(st.integers(-64, 64)) / 1024
@@ -68,6 +73,9 @@ def loc_case(draw, tier="quick"):
         if hops:
             h = draw(st.sampled_from(hops))
             ch += [st.just(h), st.just(h), st.just(h * 0.99), st.just(h * 1.01)]
+            # just below / above the longest hop, closer than any spherical approximation of the geodesic is accurate
+            hm = max(hops)
+            ch += [st.sampled_from([hm * 0.999, hm * 0.998, hm * 0.9965, hm * 1.001, hm * 1.003])]
         rm = draw(st.one_of(*ch))
     return {"lon": lon, "lat": lat, "bbox": None if bmode == "default" else bbox, "range_max": rm,
             "kind": draw(st.sampled_from(["list", "tuple"]))}
@@ -98,7 +106,7 @@ def check_loc(case, rec):
                                   ("range_max", rm is not None),
                                   ("partial_position", any(model.miss(a) != model.miss(b) for a, b in zip(lon, lat))),
                                   ("missing_position", any(model.miss(a) and model.miss(b) for a, b in zip(lon, lat)))) if on]
-    rec.note(on_edge or both or partial_adj or swap, labels)
+    rec.note(on_edge or both or partial_adj or swap or bool(case.get("grid")), labels + (["hop_threshold_grid"] if case.get("grid") else []))
     kw = {}
     if case["bbox"] is not None:
         kw["bbox"] = tuple(bbox) if case["kind"] == "tuple" else list(bbox)
@@ -155,5 +163,30 @@ SUBS = [
     Sub("location", lambda tier: gen.with_carrier(loc_case(tier)), check_loc, quick=5000, thorough=60000),
     Sub("location_reject", reject_case, check_reject, quick=300, thorough=3000, quick_shards=1),
 ]
+# ---- deterministic sweep: range_max a fraction of a percent below / above one hop ---------------------------------
+def hop_chunks(tier):
+    return [{"lat0": la} for la in (-85.0, -60.0, -30.0, -2.0, 0.0, 2.0, 30.0, 48.0, 60.0, 75.0, 88.0)]
+
+
+def hop_cases(chunk):
+    la0 = chunk["lat0"]
+    for lo0 in (-179.5, -70.0, 0.0, 179.5):
+        for dla, dlo in ((1.0, 0.0), (-0.5, 0.0), (0.0, 1.0), (0.0, -0.5), (0.25, 0.25), (0.125, -1.0), (2.0, 0.0), (0.0, 2.0)):
+            la1 = la0 + dla
+            if abs(la1) > 90:
+                continue
+            lo1 = lo0 + dlo
+            h = model.geodesic(la0, lo0, la1, lo1)
+            for eps in (-0.004, -0.003, -0.002, -0.001, 0.001, 0.003):
+                # a short quiet track before and after the hop
+                lon = [lo0, lo0, lo1, lo1]
+                lat = [la0, la0, la1, la1]
+                yield {"lon": lon, "lat": lat, "bbox": None, "range_max": h * (1 + eps), "kind": "list", "grid": True}
+
+
+ENUMS = [Enum("hop_threshold_grid", hop_chunks, hop_cases, check_loc,
+              describe="two-fix hops (due north/south, due east/west, diagonal; 11 latitudes x 4 longitudes incl. the antimeridian) "
+                       "with range_max 0.1-0.4 % below and 0.1-0.3 % above the WGS84 geodesic length of the hop",
+              tiers=("quick", "thorough"))]
 REQUIRED_CLASSES = ["location:on_box_edge", "location:suspect_hop_at_fail_point", "location:hop_next_to_partial",
                     "location:latlon_swap_matters", "location:hop_on_range_max", "location:missing_position"]
